@@ -265,15 +265,126 @@ Proof.
 Qed.
 
 (* ------------------------------------------------------------------ ids *)
-Lemma id_load_total : forall ids next, 0 <= next <= usize_max ->
-  Forall (fun i => 0 <= i < usize_max) ids ->
-  exists n, id_load next ids = Ret n /\ 0 <= n <= usize_max.
+Lemma id_limit_val : id_limit = 9223372036854775807.
+Proof. vm_compute. reflexivity. Qed.
+Lemma usize_max_val : usize_max = 18446744073709551615.
+Proof. reflexivity. Qed.
+
+Definition usize (i : Z) : Prop := 0 <= i <= usize_max.
+
+Lemma id_skip_cases next id : usize id ->
+  (id_limit < id /\ id_skip next id = Fail) \/ (id <= id_limit /\ id_skip next id = Ret (Z.max next (id + 1))).
 Proof.
-  induction ids as [|i ids IH]; intros next Hn Hi; cbn [id_load].
-  - exists next. split; [reflexivity | exact Hn].
-  - inversion Hi as [|? ? H1 H2]; subst. unfold id_skip, addus. rewrite chkus_in by lia. cbn [bind].
-    apply IH; [lia | exact H2].
+  intros [H0 H1]. unfold id_skip. rewrite Z.gtb_ltb. destruct (id_limit <? id) eqn:E.
+  - left. apply Z.ltb_lt in E. split; [exact E | reflexivity].
+  - right. apply Z.ltb_ge in E. split; [exact E|].
+    unfold addus. rewrite chkus_in; [reflexivity|].
+    rewrite id_limit_val in E. rewrite usize_max_val. lia.
 Qed.
 
-Lemma id_gen_total next : 0 <= next < usize_max -> exists n, id_gen next = Ret (next, n) /\ n = next + 1.
-Proof. intro H. unfold id_gen, addus. rewrite chkus_in by lia. cbn [bind]. eauto. Qed.
+Theorem id_skip_total_lemma next id : usize id -> id_skip next id <> Panic.
+Proof. intro H. destruct (id_skip_cases next id H) as [[_ E]|[_ E]]; rewrite E; discriminate. Qed.
+
+Theorem id_load_total_lemma : forall ids next, Forall usize ids -> id_load next ids <> Panic.
+Proof.
+  induction ids as [|i ids IH]; intros next Hi; cbn [id_load]; [discriminate|].
+  inversion Hi as [|? ? H1 H2]; subst.
+  destruct (id_skip_cases next i H1) as [[_ E]|[_ E]]; rewrite E; cbn [bind]; [discriminate | apply IH; exact H2].
+Qed.
+
+(* the error is raised exactly when some id is above usize::MAX / 2 ... *)
+Theorem id_load_fail_iff : forall ids next, Forall usize ids ->
+  (id_load next ids = Fail <-> Exists (fun i => id_limit < i) ids).
+Proof.
+  induction ids as [|i ids IH]; intros next Hi; cbn [id_load].
+  - split; [discriminate | intro H; inversion H].
+  - inversion Hi as [|? ? H1 H2]; subst.
+    destruct (id_skip_cases next i H1) as [[L E]|[L E]]; rewrite E; cbn [bind].
+    + split; [intros _; apply Exists_cons_hd; exact L | reflexivity].
+    + rewrite (IH _ H2). split; [intro H; apply Exists_cons_tl; exact H|].
+      intro H. inversion H as [? ? H3|? ? H3]; subst; [lia | exact H3].
+Qed.
+
+(* ... otherwise the generator ends above every id of the query and at most at usize::MAX / 2 + 1 *)
+Theorem id_load_ret : forall ids next n, Forall usize ids -> id_load next ids = Ret n ->
+  n = fold_left (fun a i => Z.max a (i + 1)) ids next /\ Forall (fun i => i < n) ids /\ next <= n /\
+  (next <= id_limit + 1 -> n <= id_limit + 1).
+Proof.
+  induction ids as [|i ids IH]; intros next n Hi; cbn [id_load fold_left].
+  - intro H. injection H as <-. repeat split; [apply Forall_nil | lia | tauto].
+  - inversion Hi as [|? ? H1 H2]; subst.
+    destruct (id_skip_cases next i H1) as [[L E]|[L E]]; rewrite E; cbn [bind]; [discriminate|].
+    intro H. destruct (IH _ _ H2 H) as (Ea & Eb & Ec & Ed).
+    split; [exact Ea|]. split; [|split].
+    + apply Forall_cons; [lia | exact Eb].
+    + lia.
+    + intro Hn. apply Ed. lia.
+Qed.
+
+Lemma id_gen_total next : 0 <= next < usize_max -> id_gen next = Ret (next, next + 1).
+Proof. intro H. unfold id_gen, addus. rewrite chkus_in by lia. reflexivity. Qed.
+
+Theorem id_gens_total : forall k next, 0 <= next -> next + Z.of_nat k <= usize_max ->
+  id_gens k next = Ret (next + Z.of_nat k).
+Proof.
+  induction k as [|k IH]; intros next H0 H1; cbn [id_gens].
+  - f_equal. cbn [Z.of_nat]. lia.
+  - rewrite Nat2Z.inj_succ in H1. rewrite id_gen_total by lia. cbn [bind snd].
+    rewrite IH by lia. f_equal. rewrite Nat2Z.inj_succ. lia.
+Qed.
+
+(* a generator loaded from ANY query can hand out usize::MAX / 2 further ids without overflowing *)
+Theorem id_load_then_gens : forall ids n k, Forall usize ids -> id_load 0 ids = Ret n ->
+  Z.of_nat k <= id_limit -> id_gens k n = Ret (n + Z.of_nat k).
+Proof.
+  intros ids n k Hi Hl Hk. destruct (id_load_ret ids 0 n Hi Hl) as (_ & _ & H0 & H1).
+  apply id_gens_total; [exact H0|].
+  assert (n <= id_limit + 1) by (apply H1; rewrite id_limit_val; lia).
+  rewrite id_limit_val in *. rewrite usize_max_val. lia.
+Qed.
+
+(* ------------------------------------------------------------------ negation of integer literals *)
+Lemma i64_vals : i64_min = -9223372036854775808 /\ i64_max = 9223372036854775807.
+Proof. split; reflexivity. Qed.
+
+Theorem static_neg_total_lemma v : static_neg v <> Panic.
+Proof. discriminate. Qed.
+
+Theorem static_neg_spec v : i64_min <= v <= i64_max ->
+  (v <> i64_min -> static_neg v = Ret (Some (- v)) /\ i64_min <= - v <= i64_max) /\
+  (v = i64_min -> static_neg v = Ret None).
+Proof.
+  intro H. destruct i64_vals as [Emin Emax]. unfold static_neg, checked_neg64. split; intro Hv.
+  - rewrite opt64_in by (rewrite Emin, Emax in *; lia). split; [reflexivity | rewrite Emin, Emax in *; lia].
+  - subst v. vm_compute. reflexivity.
+Qed.
+
+Theorem parse_bound_total_lemma b : parse_bound b <> Panic.
+Proof. destruct b; cbn; discriminate. Qed.
+
+Theorem parse_bound_spec z : i64_min <= z <= i64_max ->
+  (z = 0 -> parse_bound (BInt z) = Ret CurrentRow) /\
+  (0 < z -> parse_bound (BInt z) = Ret (Following z)) /\
+  (z < 0 -> parse_bound (BInt z) = Ret (Preceding (- z)) /\ 0 < - z <= usize_max).
+Proof.
+  intro H. destruct i64_vals as [Emin Emax]. unfold parse_bound, unpack, unsigned_abs64. cbn [bind].
+  repeat split.
+  - intros ->. reflexivity.
+  - intro Hz. destruct (Z.eqb_spec z 0); [lia|]. destruct (Z.leb_spec 1 z); [reflexivity | lia].
+  - destruct (Z.eqb_spec z 0); [lia|]. destruct (Z.leb_spec 1 z); [lia|]. rewrite Z.abs_neq by lia. reflexivity.
+  - lia.
+  - rewrite usize_max_val. rewrite Emin in H. lia.
+Qed.
+
+Lemma opt_bound_total (o : option bound) :
+  match o with Some b => bind (parse_bound b) (fun x => Ret (Some x)) | None => Ret None end <> Panic.
+Proof.
+  destruct o as [b|]; [|discriminate].
+  apply bind_not_panic; [apply parse_bound_total_lemma | discriminate].
+Qed.
+
+Theorem frame_bounds_total_lemma r : frame_bounds r <> Panic.
+Proof.
+  unfold frame_bounds. apply bind_not_panic; [apply opt_bound_total|]. intro s.
+  apply bind_not_panic; [apply opt_bound_total|]. discriminate.
+Qed.
